@@ -16,16 +16,20 @@ Pairings == {
 
 \* which representation is put at which distance from L, and whether compression is in play
 Reps == {"wire", "plain", "recoded"}
-Deltas == {"m1", "0", "p1", "x2"}
+Deltas == {"m1", "0", "p1", "x2", "x100"}     \* x100: far beyond the bound K*L + c of Limits!Verdict
 Comps == {"none", "gzip", "bomb"}        \* bomb: highly compressible payload, plain size = 64 * L at a tiny wire size
 
 Init == ph = "pick" /\ s = [x |-> 0]
 Pick == /\ ph = "pick"
-        /\ \E p \in Pairings, dir \in {"req", "resp"}, rep \in Reps, d \in Deltas, z \in Comps, L \in LValues, decl \in BOOLEAN :
+        /\ \E p \in Pairings, dir \in {"req", "resp"}, rep \in Reps, d \in Deltas, z \in Comps, L \in LValues, decl \in BOOLEAN, sp \in BOOLEAN :
              /\ (z = "none" => rep # "wire" \/ TRUE)
              /\ (z = "bomb" => (rep = "plain" /\ d = "x2"))
              /\ (decl => p.form = "connect_post" /\ dir = "req")
-             /\ s' = [pairing |-> p, dir |-> dir, rep |-> rep, delta |-> d, comp |-> z, L |-> L, declared |-> decl]
+             \* split: the message arrives in pieces far smaller than L (client body reads / handler Writes),
+             \* so that the limit has to hold cumulatively
+             /\ (sp => (z # "bomb" /\ ~decl))
+             /\ (d = "x100" => (sp /\ z = "none" /\ rep = "plain"))
+             /\ s' = [pairing |-> p, dir |-> dir, rep |-> rep, delta |-> d, comp |-> z, L |-> L, declared |-> decl, split |-> sp]
         /\ ph' = "done"
 Done == ph = "done" /\ UNCHANGED vars
 Next == Pick \/ Done
